@@ -46,7 +46,38 @@ ASSUMPTIONS = ['Series form goes through pdextract, which only takes a seed: '
 F_ORDER_SAMPLE = 'F-rexpy-sample-depends-on-order'
 
 VARIANTS = ['asis', 'perm', 'dict', 'repeat', 'series', 'dict0',
-            'series-cat', 'bytes', 'bytes-dict', 'raises']
+            'series-cat', 'bytes', 'bytes-dict', 'raises', 'function']
+
+
+def check_function_for(xs, sampled):
+    """The third documented input form: a check function written after
+    rexpy's example_check_function - the distinct strings (here in sorted
+    order, so that only the random state decides a sample) that match none
+    of the expressions, at most maxN of them chosen with random.sample."""
+    import re
+    from tdda.rexpy.rexpy import Examples
+    c = Counter(x for x in xs if x is not None)
+    strings = sorted(c)
+
+    def check(rexes, maxN=None):
+        re_freqs = [0] * len(rexes)
+        failures = []
+        if rexes:
+            patterns = [re.compile(r, G.FLAGS) for r in rexes]
+            for u in strings:
+                for (i, r) in enumerate(patterns):
+                    if re.fullmatch(r, u):
+                        re_freqs[i] += c[u]
+                        break
+                else:
+                    failures.append(u)
+        else:
+            failures = list(strings)
+        if maxN is not None and len(failures) > maxN:
+            sampled.append(len(failures))
+            failures = random.sample(failures, maxN)
+        return Examples(failures, [c[u] for u in failures]), re_freqs
+    return check
 
 
 def set_strategy(tier):
@@ -77,8 +108,21 @@ def set_strategy(tier):
                                  {'do_all': 9, 'do_all_exceptions': 1,
                                   'n_per_length': 1}]),
     })
+    # few examples used at first, one of the two extra letters rare: what
+    # is returned goes by which examples the first sample holds
+    first_sample = st.fixed_dictionaries({
+        'examples': st.permutations(['alpha_a', 'beta_b', 'gamma_c',
+                                     'delta_d', 'eps_one', 'zeta-two',
+                                     'eta_seven', 'theta_x']).map(list),
+        'opts': G.opts_strategy(with_pruning=False).map(
+            lambda o: dict(o, extra_letters='_-', strip=False)),
+        'size': st.sampled_from([{'do_all': 3, 'do_all_exceptions': 3},
+                                 {'do_all': 2, 'do_all_exceptions': 3},
+                                 {'do_all': 4, 'do_all_exceptions': 2}]),
+    })
     return st.integers(0, 14).flatmap(
-        lambda k: nothing if k == 0 else threshold if k == 1 else regular)
+        lambda k: nothing if k == 0 else threshold if k == 1
+        else first_sample if k == 2 else regular)
 
 
 def step_strategy():
@@ -105,11 +149,30 @@ def step_strategy():
     )
 
 
+def add_function_steps(case):
+    """A set built for the first sample is extracted twice through a check
+    function with one seed, the global generator being disturbed in
+    between."""
+    for (i, s) in enumerate(case['sets']):
+        sz = s.get('size')
+        if ('zeta-two' in s['examples'] and isinstance(sz, dict)
+                and sz.get('do_all', 99) <= 4):
+            k = len(case['steps'])
+            case['steps'] = case['steps'][:5] + [
+                {'op': 'extract', 'set': i, 'seed': 1 + k % 2,
+                 'variant': 'function', 'key': 0},
+                {'op': 'rng', 'k': k % 6},
+                {'op': 'extract', 'set': i, 'seed': 1 + k % 2,
+                 'variant': 'function', 'key': 0}]
+            break
+    return case
+
+
 def strategy(tier):
     return st.fixed_dictionaries({
         'sets': st.lists(set_strategy(tier), min_size=1, max_size=3),
         'steps': st.lists(step_strategy(), min_size=2, max_size=8),
-    })
+    }).map(add_function_steps)
 
 
 def valid(case):
@@ -364,7 +427,11 @@ def run(case, ctx):
         else:
             kw = G.extract_kwargs(c)
             kw['seed'] = seed
-            given = variant_input(xs, variant, step['key'])
+            fn_sampled = []
+            if variant == 'function':
+                given = check_function_for(xs, fn_sampled)
+            else:
+                given = variant_input(xs, variant, step['key'])
             if variant == 'bytes':
                 kw['encoding'] = 'utf-8-sig'
             elif variant == 'bytes-dict':
@@ -375,6 +442,12 @@ def run(case, ctx):
             slot = (si, seed, 'opts')
             n_distinct = len(distinct)
             sampling = G.sampling_path(c, n_distinct)
+            if variant == 'function':
+                # compared with other function-form calls only: the
+                # function samples by its own rule (and in sorted order)
+                slot = (si, seed, 'function')
+                given = sorted(set(x for x in xs if x is not None))
+                sampling = bool(fn_sampled) or sampling
         after = random.getstate()
         out.label('variant:' + variant)
         if sampling:
